@@ -188,7 +188,7 @@ Section Proofs.
       destruct (c_part_size cfg <? snd body); [inversion H; subst; exact Hinv|].
       destruct (s_size s <? s_total s + snd body); [inversion H; subst; exact Hinv|].
       destruct ((s_total s + snd body <? s_size s) && (snd body <? c_min_part cfg)); [inversion H; subst; exact Hinv|].
-      destruct f; [inversion H; subst; exact Hinv|].
+      destruct (f || negb (w_s3open w)); [inversion H; subst; exact Hinv|].
       inversion H; subst; clear H. unfold inv in *. rewrite Es in Hinv.
       cbn [w_sess w_s3open w_s3parts s_parts s_hashed s_next s_total]. intros Ho.
       destruct (Hinv Ho) as (H1 & H2 & H3 & H4 & H5).
@@ -210,9 +210,10 @@ Section Proofs.
       destruct (nonempty (s_expect s) && nonempty (checksum_of hashf (s_alg s) (s_hashed s)) &&
                 negb (bytes_eqb (s_expect s) (checksum_of hashf (s_alg s) (s_hashed s)))).
       { inversion H; subst. unfold inv. cbn. try rewrite Es. intros; discriminate. }
-      destruct (broker_status r =? 200); inversion H; subst; unfold inv; cbn; [exact I|].
-      try rewrite Es. intros; discriminate.
-    - unfold do_abort in H. destruct (w_sess w); inversion H; subst; [exact I|exact Hinv].
+      destruct (broker_status r =? 200); inversion H; subst; unfold inv; cbn;
+        try rewrite Es; intros; discriminate.
+    - unfold do_abort in H. destruct (w_sess w) eqn:Es; inversion H; subst; [|exact Hinv].
+      unfold inv. cbn. intros; discriminate.
   Qed.
 
   Lemma run_inv cfg : forall es w w' rs, inv w -> run hashf cfg w es = (w', rs) -> inv w'.
@@ -295,7 +296,7 @@ Section Proofs.
       destruct (c_part_size cfg <? snd body); [inversion H; subst; discriminate|].
       destruct (s_size s <? s_total s + snd body); [inversion H; subst; discriminate|].
       destruct ((s_total s + snd body <? s_size s) && (snd body <? c_min_part cfg)); [inversion H; subst; discriminate|].
-      destruct f; inversion H; subst; discriminate.
+      destruct (f || negb (w_s3open w)); inversion H; subst; discriminate.
     - unfold do_complete in H.
       destruct (w_sess w) as [s|] eqn:Es; [|inversion H; subst; discriminate].
       destruct (negb (s_total s =? s_size s)); [inversion H; subst; discriminate|].
@@ -415,5 +416,181 @@ Section Proofs.
       rewrite Hr in Hc. inversion Hc. contradiction.
     - split; [|reflexivity]. intros H200.
       apply (completion_200_env cfg w e w' p r Hstep Hr H200). exact Henv.
+  Qed.
+  (* ---------- session map, expiry, requests in flight ---------- *)
+  Lemma step_env_200 cfg w e w' p env :
+    inv w -> step hashf cfg w e = (w', p) -> p_env p = Some env -> p_status p = 200.
+  Proof.
+    intros Hinv Hstep Henv.
+    destruct (Z.eq_dec (p_status p) 200) as [E|E]; [exact E|exfalso].
+    (* fail st never carries an envelope; mkResp 200 (Some _) has status 200 *)
+    revert Hstep Henv E. clear. intros H Henv E.
+    assert (forall st, p = fail st -> False) as Hf by (intros st ->; discriminate).
+    destruct e as [ps cs alg fs r|size cs alg f|n body f|listed f r|]; cbn in H.
+    - unfold do_produce in H.
+      destruct (alg <? 0); [inversion H; subst; eapply Hf; eauto|].
+      destruct (nonempty cs && (alg =? 3)); [inversion H; subst; eapply Hf; eauto|].
+      destruct ps as [|first rest]; [inversion H; subst; eapply Hf; eauto|].
+      assert (forall key obj w1, produce_finish hashf key (first :: rest) cs alg r (put_obj w1 key obj) = (w', p) -> False) as Hfin.
+      { intros key obj w1 Hp. unfold produce_finish in Hp.
+        destruct (nonempty cs && nonempty (checksum_of hashf alg (first :: rest)) &&
+                  negb (bytes_eqb cs (checksum_of hashf alg (first :: rest)))); [inversion Hp; subst; eapply Hf; eauto|].
+        destruct (broker_status r =? 200); inversion Hp; subst; [apply E; reflexivity|eapply Hf; eauto]. }
+      destruct (match rest with [] => snd first <? c_min_part cfg | _ => false end).
+      + destruct (fst (next_fault fs)); [inversion H; subst; eapply Hf; eauto|]. eapply Hfin; eauto.
+      + destruct (fst (next_fault fs)); [inversion H; subst; eapply Hf; eauto|].
+        destruct (stream_parts cfg (first :: rest) 1 0 (snd (next_fault fs)) []) as [[st fs1] acc].
+        destruct (negb (st =? 200)); [inversion H; subst; eapply Hf; eauto|].
+        destruct (fst (next_fault fs1)); [inversion H; subst; eapply Hf; eauto|].
+        destruct (assemble acc 0 (listed_all acc)); [|inversion H; subst; eapply Hf; eauto].
+        eapply Hfin; eauto.
+    - unfold do_init in H.
+      repeat match type of H with (if ?c then _ else _) = _ => destruct c end;
+      inversion H; subst; eapply Hf; eauto.
+    - unfold do_part in H.
+      repeat match type of H with
+      | (if ?c then _ else _) = _ => destruct c
+      | (match ?c with _ => _ end) = _ => destruct c
+      end; inversion H; subst; eapply Hf; eauto.
+    - unfold do_complete in H.
+      destruct (w_sess w) as [s|]; [|inversion H; subst; eapply Hf; eauto].
+      destruct (negb (s_total s =? s_size s)); [inversion H; subst; eapply Hf; eauto|].
+      destruct listed as [|l0 listed]; [inversion H; subst; eapply Hf; eauto|].
+      destruct (negb (forallb _ (l0 :: listed))); [inversion H; subst; eapply Hf; eauto|].
+      destruct (negb (listed_exact (l0 :: listed) 1 (s_next s))); [inversion H; subst; eapply Hf; eauto|].
+      destruct (f || negb (w_s3open w)); [inversion H; subst; eapply Hf; eauto|].
+      destruct (assemble (w_s3parts w) 0 (l0 :: listed)); [|inversion H; subst; eapply Hf; eauto].
+      destruct (nonempty (s_expect s) && nonempty (checksum_of hashf (s_alg s) (s_hashed s)) &&
+                negb (bytes_eqb (s_expect s) (checksum_of hashf (s_alg s) (s_hashed s)))); [inversion H; subst; eapply Hf; eauto|].
+      destruct (broker_status r =? 200); inversion H; subst; [apply E; reflexivity|eapply Hf; eauto].
+    - unfold do_abort in H. destruct (w_sess w); inversion H; subst; eapply Hf; eauto.
+  Qed.
+
+  Lemma body_spec cfg y e y' p :
+    body hashf cfg y e = (y', p) ->
+    (p = fail 410 /\ y_w y' = y_w y) \/ step hashf cfg (y_w y) e = (y_w y', p).
+  Proof.
+    unfold body. intros H. destruct e as [ps cs alg fs r|size cs alg f|n b f|listed f r|].
+    - destruct (step hashf cfg (y_w y) (EProduce ps cs alg fs r)) as [w' p']. inversion H; subst. now right.
+    - destruct (step hashf cfg (y_w y) (EInit size cs alg f)) as [w' p'].
+      destruct (p_status p' =? 200); inversion H; subst; now right.
+    - destruct (y_expired y); [inversion H; subst; left; auto|].
+      destruct (step hashf cfg (y_w y) (EPart n b f)) as [w' p']. inversion H; subst. now right.
+    - destruct (y_expired y); [inversion H; subst; left; auto|].
+      destruct (step hashf cfg (y_w y) (EComplete listed f r)) as [w' p']. inversion H; subst. now right.
+    - destruct (step hashf cfg (y_w y) EAbort) as [w' p']. inversion H; subst. now right.
+  Qed.
+
+  Lemma lookup_w y y1 found : lookup y = (y1, found) -> y_w y1 = y_w y /\ y_pending y1 = y_pending y.
+  Proof. unfold lookup. destruct (y_expired y); intros H; inversion H; subst; auto. Qed.
+
+  (* the request whose body produced the response of a [cstep] *)
+  Definition executed (y : sys) (c : cevent) : option event :=
+    match c with
+    | CReq e => Some e
+    | CArrive e => Some e
+    | CRun i => nth_error (y_pending y) i
+    | CExpire => None
+    end.
+
+  Definition outside (op : option response) : Prop :=
+    forall p, op = Some p -> p_env p = None /\ p_status p <> 200.
+
+  Ltac out_tac := intros ? Hp; inversion Hp; subst; cbn; split; [reflexivity|lia].
+
+  Lemma precheck_out e p0 : precheck e = Some p0 -> outside (Some p0).
+  Proof.
+    destruct e; cbn; try discriminate.
+    destruct ((n <=? 0) || (2147483647 <? n)); intros H; inversion H; subst. out_tac.
+  Qed.
+
+  Lemma cstep_spec cfg y c y' op :
+    cstep hashf cfg y c = (y', op) ->
+    (y_w y' = y_w y /\ outside op) \/
+    exists e p, executed y c = Some e /\ op = Some p /\ step hashf cfg (y_w y) e = (y_w y', p).
+  Proof.
+    intros H. destruct c as [e|e|i|]; cbn in H.
+    - destruct (is_session_event e).
+      + destruct (precheck e) as [p0|] eqn:Ep.
+        { inversion H; subst. left. split; [reflexivity|]. eapply precheck_out; eauto. }
+        destruct (lookup y) as [y1 found] eqn:El. apply lookup_w in El. destruct El as [Ew _].
+        destruct found.
+        * destruct (body hashf cfg y1 e) as [y2 p] eqn:Eb. inversion H; subst.
+          apply body_spec in Eb. destruct Eb as [[-> Eq]|Eb].
+          { left. split; [congruence|]. out_tac. }
+          right. exists e, p. rewrite Ew in Eb. auto.
+        * inversion H; subst. left. split; [exact Ew|]. out_tac.
+      + destruct (body hashf cfg y e) as [y2 p] eqn:Eb. inversion H; subst.
+        apply body_spec in Eb. destruct Eb as [[-> Eq]|Eb].
+        { left. split; [exact Eq|]. out_tac. }
+        right. exists e, p. auto.
+    - destruct (is_session_event e).
+      + destruct (precheck e) as [p0|] eqn:Ep.
+        { inversion H; subst. left. split; [reflexivity|]. eapply precheck_out; eauto. }
+        destruct (lookup y) as [y1 found] eqn:El. apply lookup_w in El. destruct El as [Ew _].
+        destruct found; inversion H; subst; left; (split; [cbn; exact Ew|]).
+        * intros ? Hp; discriminate.
+        * out_tac.
+      + destruct (body hashf cfg y e) as [y2 p] eqn:Eb. inversion H; subst.
+        apply body_spec in Eb. destruct Eb as [[-> Eq]|Eb].
+        { left. split; [exact Eq|]. out_tac. }
+        right. exists e, p. auto.
+    - destruct (nth_error (y_pending y) i) as [e|] eqn:En.
+      + destruct (body hashf cfg _ e) as [y2 p] eqn:Eb. inversion H; subst.
+        apply body_spec in Eb. cbn [y_w] in Eb. destruct Eb as [[-> Eq]|Eb].
+        { left. split; [exact Eq|]. out_tac. }
+        right. exists e, p. auto.
+      + inversion H; subst. left. split; [reflexivity|]. intros ? Hp; discriminate.
+    - inversion H; subst. left. split; [reflexivity|]. intros ? Hp; discriminate.
+  Qed.
+
+  Lemma cstep_inv cfg y c y' op : inv (y_w y) -> cstep hashf cfg y c = (y', op) -> inv (y_w y').
+  Proof.
+    intros Hinv H. apply cstep_spec in H. destruct H as [[-> _]|(e & p & _ & _ & Hs)]; [exact Hinv|].
+    eapply step_inv; eauto.
+  Qed.
+
+  Lemma crun_inv cfg : forall cs y y' rs, inv (y_w y) -> crun hashf cfg y cs = (y', rs) -> inv (y_w y').
+  Proof.
+    induction cs as [|c cs IH]; intros y y' rs Hinv H; cbn in H.
+    - inversion H; subst. exact Hinv.
+    - destruct (cstep hashf cfg y c) as [y1 p] eqn:Es.
+      destruct (crun hashf cfg y1 cs) as [y2 ps] eqn:Er. inversion H; subst.
+      eapply IH; [|exact Er]. eapply cstep_inv; eauto.
+  Qed.
+
+  (* C32 for every interleaving: whatever requests arrived, waited, ran in whatever lock
+     order, with the session expiring at any point *)
+  Theorem csuccess_sound cfg cs y rs c y' p env :
+    crun hashf cfg init_sys cs = (y, rs) ->
+    cstep hashf cfg y c = (y', Some p) ->
+    p_env p = Some env ->
+    exists e, executed y c = Some e /\ p_status p = 200 /\ sound e (y_w y') env.
+  Proof.
+    intros Hrun Hstep Henv.
+    pose proof (crun_inv cfg cs init_sys y rs inv_init Hrun) as Hinv.
+    apply cstep_spec in Hstep. destruct Hstep as [[_ Hno]|(e & p' & He & Hp & Hs)].
+    - exfalso. destruct (Hno p eq_refl) as [Hn _]. congruence.
+    - inversion Hp; subst p'. exists e. split; [exact He|]. split.
+      + eapply step_env_200; eauto.
+      + eapply step_sound; eauto.
+  Qed.
+
+  Theorem cbroker_error_rejected cfg cs y rs c y' p e r :
+    crun hashf cfg init_sys cs = (y, rs) ->
+    cstep hashf cfg y c = (y', Some p) ->
+    executed y c = Some e -> completion_reply e = Some r -> r <> RCode 0 ->
+    p_status p <> 200 /\ p_env p = None.
+  Proof.
+    intros Hrun Hstep He Hr Hne.
+    destruct (p_env p) as [env|] eqn:Henv.
+    - destruct (csuccess_sound cfg cs y rs c y' p env Hrun Hstep Henv) as (e' & He' & _ & Hc & _).
+      rewrite He in He'. inversion He'; subst e'. rewrite Hr in Hc. inversion Hc. contradiction.
+    - split; [|reflexivity]. intros H200.
+      pose proof Hstep as Hs2. apply cstep_spec in Hs2.
+      destruct Hs2 as [[_ Hno]|(e' & p' & He' & Hp & Hs)].
+      + destruct (Hno p eq_refl) as [_ Hn]. contradiction.
+      + inversion Hp; subst p'. rewrite He in He'. inversion He'; subst e'.
+        apply (completion_200_env cfg (y_w y) e (y_w y') p r Hs Hr H200). exact Henv.
   Qed.
 End Proofs.
